@@ -30,7 +30,9 @@ func safely(c *Ctx, what string, f func()) (v *Violation) {
 			v = &Violation{Clause: c.Prop + ".panic/" + what, Msg: fmt.Sprintf("%s panicked: %v", what, r)}
 			return
 		}
-		if gp != "" {
+		if strings.HasPrefix(gp, "DATA RACE: ") {
+			v = &Violation{Clause: c.Prop + ".data-race/" + what, Msg: fmt.Sprintf("among the goroutines started by %s: %s", what, strings.TrimPrefix(gp, "DATA RACE: "))}
+		} else if gp != "" {
 			v = &Violation{Clause: c.Prop + ".panic/" + what, Msg: fmt.Sprintf("a goroutine started by %s panicked (this ends the caller's process): %s", what, gp)}
 		} else if gn {
 			v = &Violation{Clause: c.Prop + ".nontermination/" + what, Msg: fmt.Sprintf("a goroutine started by %s did not terminate within the step bound, or waits in a deadlock with its caller", what)}
